@@ -32,6 +32,7 @@ struct sched_point_rec
     unsigned char running;       /* thread that ran before this point (255 = none) */
     unsigned char running_enabled;
     unsigned char op[SCHED_MAX_THREADS]; /* pending operation of every thread (0 = finished / not started) */
+    unsigned long long state;            /* digest of the whole program state at this choice point (see sched_set_state_fn) */
 };
 
 struct sched_result
@@ -51,6 +52,12 @@ void sched_run(int nthreads, void (*body)(int thread, void* arg), void* arg, con
 
 /* called by hooked operations of a scheduled thread; no-op for other threads or when no exploration is active */
 void sched_point(int op, void* obj);
+/* A scheduled thread reports a value it has just read from shared state (a failed / successful try-lock, a buffer
+ * position ...).  The values are folded into a per-thread observation digest: a deterministic thread's local state is a
+ * function of how far it has come and of what it has observed. */
+void sched_observe(unsigned long long value);
+/* digest of the shared state outside the scheduler's own model (called by the controller while every thread is parked) */
+void sched_set_state_fn(unsigned long long (*fn)(void));
 int sched_active_thread(void); /* id of the calling scheduled thread or -1 */
 
 #ifdef __cplusplus
